@@ -228,13 +228,13 @@ impl HtmlWorld {
     fn knobs(&self) -> SchedKnobs {
         match self.prop {
             HProp::C03 | HProp::C09 | HProp::C19 => {
-                SchedKnobs { allow_inject: true, allow_collect: false, allow_truncate: false, allow_end_at_pause: false }
+                SchedKnobs { allow_inject: true, allow_collect: false, allow_truncate: false, allow_end_at_pause: false, allow_script_dom: false }
             },
-            HProp::C04 => SchedKnobs { allow_inject: true, allow_collect: true, allow_truncate: true, allow_end_at_pause: true },
-            HProp::C05 => SchedKnobs { allow_inject: true, allow_collect: true, allow_truncate: true, allow_end_at_pause: false },
-            HProp::C06 => SchedKnobs { allow_inject: true, allow_collect: false, allow_truncate: true, allow_end_at_pause: false },
-            HProp::C08 => SchedKnobs { allow_inject: false, allow_collect: false, allow_truncate: false, allow_end_at_pause: false },
-            HProp::C18 => SchedKnobs { allow_inject: true, allow_collect: true, allow_truncate: true, allow_end_at_pause: false },
+            HProp::C04 => SchedKnobs { allow_inject: true, allow_collect: true, allow_truncate: true, allow_end_at_pause: true, allow_script_dom: true },
+            HProp::C05 => SchedKnobs { allow_inject: true, allow_collect: true, allow_truncate: true, allow_end_at_pause: false, allow_script_dom: false },
+            HProp::C06 => SchedKnobs { allow_inject: true, allow_collect: false, allow_truncate: true, allow_end_at_pause: false, allow_script_dom: false },
+            HProp::C08 => SchedKnobs { allow_inject: false, allow_collect: false, allow_truncate: false, allow_end_at_pause: false, allow_script_dom: false },
+            HProp::C18 => SchedKnobs { allow_inject: true, allow_collect: true, allow_truncate: true, allow_end_at_pause: false, allow_script_dom: true },
         }
     }
 
@@ -338,6 +338,7 @@ fn add_run_stats(stats: &mut Stats, obs: &RunObs) {
     stats.add("F5_collections", s.collections);
     stats.add("F5_nodes_collected", s.collected_nodes);
     stats.add("pauses_script", s.pauses_script);
+    stats.add("F11_script_detached_an_element", s.script_removals);
     stats.add("pauses_encoding_indicator", s.pauses_indicator);
     if let Some(sink) = &obs.sink {
         stats.add("probe_foster_parent_insert", sink.stats_foster.get());
@@ -990,6 +991,16 @@ fn case_candidates(c: &HtmlCase) -> Vec<HtmlCase> {
                 let mut n = c.clone();
                 n.schedule.pauses[i].inject = Some("x".into());
                 out.push(n);
+            }
+            if !s.pauses[i].remove.is_empty() {
+                let mut n = c.clone();
+                n.schedule.pauses[i].remove.clear();
+                out.push(n);
+                if s.pauses[i].remove.len() > 1 {
+                    let mut n = c.clone();
+                    n.schedule.pauses[i].remove.pop();
+                    out.push(n);
+                }
             }
             if s.pauses[i].deliver_before_resume > 0 {
                 let mut n = c.clone();
